@@ -286,7 +286,13 @@ type FuncResult struct {
 func (e *Engine) verifyFunc(pkgPath string, fc *FuncContract) *FuncResult {
 	res := &FuncResult{Name: fc.Key, Pkg: pkgPath, Contract: fc}
 	idx := e.funcIndex[pkgPath]
-	fn := idx[fc.Key]
+	// "F#impl": a second contract for F that is only CHECKED against F's body and never used at call sites (callers keep
+	// seeing F's main contract, e.g. an abstract predicate; the #impl contract pins down how F computes it)
+	lookup := fc.Key
+	if i := strings.Index(lookup, "#"); i >= 0 {
+		lookup = lookup[:i]
+	}
+	fn := idx[lookup]
 	if fn == nil {
 		res.Undecided = append(res.Undecided, "function not found in package (renamed or deleted?)")
 		return res
